@@ -37,7 +37,7 @@ type historyScn struct {
 
 func init() { runners["history"] = runHistory }
 
-var histOutcomes = []string{"ok", "ok", "ok", "herr", "cancel", "deadline", "earlyret", "failopen"}
+var histOutcomes = []string{"ok", "ok", "ok", "herr", "cancel", "deadline", "earlyret", "failopen", "cancelunread"}
 var histKinds = []string{"unary", "unary", "bidi", "cs", "ss"}
 
 func runHistory(t *testing.T, sc *Scenario, raw []byte) {
@@ -211,6 +211,9 @@ func histRPC(rt *runtimeS, cc *goat.ClientConn, c int, kind, out string, nmsg in
 	}
 	defer cancel()
 	bv := func(s string) *wrapperspb.BytesValue { return &wrapperspb.BytesValue{Value: []byte(s)} }
+	if out == "cancelunread" && (kind == "cs" || kind == "unary") {
+		out = "cancel" // a client-streaming / unary handler has no responses to leave unread
+	}
 
 	// handler program
 	var hp []HOp
@@ -230,7 +233,10 @@ func histRPC(rt *runtimeS, cc *goat.ClientConn, c int, kind, out string, nmsg in
 		hp = []HOp{{O: "recv"}, {O: "ret", Code: 9, Msg: "failed"}}
 	case out == "earlyret":
 		hp = []HOp{{O: "ret"}}
-	case out == "cancel" || out == "deadline":
+	case out == "cancelunread" && kind != "cs":
+		// two responses, then the handler waits for its context; the caller takes one and cancels
+		hp = []HOp{{O: "send", Pay: "u0"}, {O: "send", Pay: "u1"}, {O: "ctxwait"}, {O: "ret", Code: 1, Msg: "gone"}}
+	case out == "cancel" || out == "deadline" || out == "cancelunread":
 		hp = []HOp{{O: "ctxwait"}, {O: "ret", Code: 1, Msg: "gone"}}
 	case kind == "bidi":
 		hp = []HOp{{O: "echo"}}
@@ -259,7 +265,7 @@ func histRPC(rt *runtimeS, cc *goat.ClientConn, c int, kind, out string, nmsg in
 	if kind == "ss" {
 		nmsg = 1
 	}
-	if (out == "cancel" || out == "deadline") && nmsg > 1 {
+	if (out == "cancel" || out == "deadline" || out == "cancelunread") && nmsg > 1 {
 		// The handler of these outcomes only waits for its context. A second
 		// unread message would park the server's read loop (holding the registry
 		// lock, by design, until the handler's deadline) and goroutines waiting
@@ -280,6 +286,11 @@ func histRPC(rt *runtimeS, cc *goat.ClientConn, c int, kind, out string, nmsg in
 	}
 	if out == "cancel" {
 		cancel()
+	}
+	if out == "cancelunread" {
+		_ = cs.RecvMsg(new(wrapperspb.BytesValue))
+		cancel()
+		return // never receives again
 	}
 	_ = cs.CloseSend()
 	for i := 0; i < 1000; i++ {
